@@ -44,6 +44,17 @@ def run(ctx):
     bad = miri.failing(res)
     ctx.oblige("miri:litmus-race-free", not bad, "%d failing runs" % len(bad))
 
+    # the single-thread schedules are schedules too: "destroyed exactly once", "nothing touched after the release of the
+    # memory" along sequential histories with panicking callbacks (the tour of the history harness; monitors tagged C02).
+    # Used as a SEARCH here (C02's theorems are about the weak-memory model, not about the sequential one): only a
+    # monitor failure counts, a model/implementation difference without one is the history checks' business.
+    if not any(v["found_input"] for v in ctx.violations):
+        from vlib import histcheck
+        histcheck.run(ctx, MODULE, dict(clone=20, drop=20, cb=16, conv=14, cmp=8), ["C02"], lean=False, cov_key="history_pass", n_quick=60,
+                      zst=False, search_only=True)
+        if any(v["found_input"] for v in ctx.violations):
+            return
+
     if ctx.failed_obligations():
         body = ["Lean obligations that no longer check (Props/C02.lean at the regenerated facts):"]
         body += ["  " + n for n in ctx.failed_obligations()]
@@ -79,4 +90,7 @@ def run(ctx):
 
 
 def replay(ctx, path):
+    if any(l.startswith("OP ") for l in open(path)):
+        from vlib import histcheck
+        return histcheck.replay(ctx, path, ["C02"])
     miri.replay(ctx, path)
